@@ -66,6 +66,9 @@ pub enum Way {
     CloneOfSerde,
     /// BitVector <-> BitVectorMut round trip (bit vectors), otherwise like Direct
     Convert,
+    /// `donor.clone_from(&x)` where the donor is a second value of the same type built from the
+    /// reversed, doubled content
+    CloneFrom,
 }
 
 #[derive(Clone, Debug, PartialEq, Eq, Hash, Serialize, Deserialize)]
@@ -559,6 +562,7 @@ fn obtain(v: AnyVal, way: Way) -> Result<AnyVal, Failure> {
         Way::Clone => v.clone_val(),
         Way::Serde => serde(&v)?,
         Way::CloneOfSerde => serde(&v)?.clone_val(),
+        Way::CloneFrom => v,
         Way::Convert => match v {
             AnyVal::Bits(BitsVal::Bv(x), m) => {
                 let mm: BitVectorMut = x.into();
@@ -570,6 +574,43 @@ fn obtain(v: AnyVal, way: Way) -> Result<AnyVal, Failure> {
             }
             other => other,
         },
+    })
+}
+
+/// a second value of the same concrete type holding other content (reversed and doubled)
+fn donor_of(base: &AnyCase) -> Option<AnyVal> {
+    use crate::bitgen::BitContent;
+    use crate::quads::QuadContent;
+    use crate::seqgen::Content;
+    let twice = |n: usize| n <= 200_000;
+    Some(match base {
+        AnyCase::Seq(c) => {
+            let mut s = c.content.expand();
+            if !twice(s.len()) { return None; }
+            s.reverse();
+            let t = s.clone();
+            s.extend(t);
+            s.push(0);
+            AnyCase::Seq(crate::seqgen::SeqCase { content: Content::Explicit(s), how: crate::trees::How::New, ..c.clone() }).build()
+        }
+        AnyCase::Bits(c) => {
+            let mut b = c.content.expand();
+            if !twice(b.len()) { return None; }
+            b.reverse();
+            let t = b.clone();
+            b.extend(t);
+            b.push(true);
+            AnyCase::Bits(crate::props::bitsprops::BitsCase { content: BitContent::Explicit(b), bvhow: crate::bits::BvHow::Bools, wrap: crate::bits::WrapHow::New, ..c.clone() }).build()
+        }
+        AnyCase::Quad(c) => {
+            let mut q = c.content.expand();
+            if !twice(q.len()) { return None; }
+            q.reverse();
+            let t = q.clone();
+            q.extend(t);
+            q.push(3);
+            AnyCase::Quad(crate::props::quadprops::QuadCase { content: QuadContent::Explicit(q), how: crate::quads::QuadHow::FromQVector(crate::quads::IntTy::U8), ..c.clone() }).build()
+        }
     })
 }
 
@@ -596,7 +637,7 @@ impl Prop for C04 {
     fn strategy(&self, tier: Tier, _b: &str) -> BoxedStrategy<ApiCase> {
         let call = (any::<u8>(), arg(), arg(), sym(), prop_oneof![any::<u64>(), 0u64..256, Just(u64::MAX)])
             .prop_map(|(m, a, b, s, bits)| Call { m, a, b, s, bits });
-        let way = prop_oneof![3 => Just(Way::Direct), 2 => Just(Way::Clone), 2 => Just(Way::Serde), 1 => Just(Way::CloneOfSerde), 1 => Just(Way::Convert)];
+        let way = prop_oneof![3 => Just(Way::Direct), 2 => Just(Way::Clone), 2 => Just(Way::Serde), 1 => Just(Way::CloneOfSerde), 1 => Just(Way::Convert), 2 => Just(Way::CloneFrom)];
         (any_case(tier, (5, 4, 2), &TreeKind::ALL), way, proptest::collection::vec(call, 1..80))
             .prop_map(|(base, way, calls)| ApiCase { base, way, calls, sweep: false })
             .boxed()
@@ -678,6 +719,17 @@ impl Prop for C04 {
         let v = match obtain(built, c.way) {
             Ok(v) => v,
             Err(e) => fail!("{who} via {:?}: {}", c.way, e.msg),
+        };
+        let v = if c.way == Way::CloneFrom {
+            match donor_of(&c.base).and_then(|d| v.clone_from_into(&d)) {
+                Some(cf) => {
+                    ensure!(cf.eq_val(&v), "{who}: after donor.clone_from(&x) donor != x (n = {n})");
+                    cf
+                }
+                None => v,
+            }
+        } else {
+            v
         };
         if n == 0 { ctx.label("empty-or-default"); }
         let mut invalid = false;
